@@ -6,13 +6,9 @@ From Anko Require Import Parse.ExprParser Parse.Spec.
 From AnkoGen Require Import GenPrec.
 Import ListNotations.
 
-Theorem grammar_precedence_lines_are_the_specified_ones : prec_lines = prec_lines_spec.
+(* up to the order of tokens inside a line and to lines without a binary operator of the expression
+   language, the declarations denote the specified table; prefix operators use %prec UNARY, UNARY is
+   tighter than every binary level, and ( [ . carry no precedence *)
+Theorem grammar_declarations_denote_the_specified_table : grammar_matches_spec prec_lines unary_prec = true.
 Proof. vm_compute. reflexivity. Qed.
-
-Theorem grammar_table_is_the_specification : table_of_lines prec_lines = T_spec.
-Proof. rewrite grammar_precedence_lines_are_the_specified_ones. exact spec_lines_give_spec_table. Qed.
-
-(* prefix operators carry %prec UNARY; postfix openers carry no precedence of their own *)
-Theorem unary_productions_use_prec_unary : unary_prec = unary_prec_spec.
-Proof. vm_compute. reflexivity. Qed.
-Print Assumptions grammar_table_is_the_specification.
+Print Assumptions grammar_declarations_denote_the_specified_table.
